@@ -1730,13 +1730,19 @@ pub fn run(words: &[&str]) -> String {
     LOG.with(|l| l.borrow_mut().clear());
     LAST_TASK.with(|c| c.set(0));
     let p2 = prog.clone();
+    let mark = wrapper == Some("und");
     let body = move || {
+        if mark {
+            // the nondeterminism checker runs every execution twice (recording, then replay): mark the starts
+            log("@@".to_string());
+        }
         let objs = start_exec(&p2);
         run_body(p2.clone(), objs, 0);
     };
     let res = catch_unwind(AssertUnwindSafe(|| match wrapper {
         None => Runner::new(sched, config).run(body),
         Some("ann") => Runner::new(shuttle_schedulers::AnnotationScheduler::new(sched), config).run(body),
+        Some("und") => Runner::new(shuttle_schedulers::UncontrolledNondeterminismCheckScheduler::new(sched), config).run(body),
         Some("box") => {
             let b: Box<dyn Scheduler + Send> = Box::new(sched);
             Runner::new(b, config).run(body)
